@@ -120,6 +120,138 @@ impl Parent {
     //@@ insert_before
 }
 
+// =====================================================================================================
+// the per-type primitive insert_by_id of XmlElement and XmlAttribute (XmlDocument's uses a nested helper fn and stays
+// an assumed callee).  World model on the receiver: its own child list (a real Vec of handles) and the parent link of
+// every item of the document (`parent_of`, ghost).  `value.remove_from_parent()` / `value.set_parent_id(..)` act on that
+// shared world and are rewritten to methods of the receiver (R43).
+// =====================================================================================================
+pub mod prim {
+    use vstd::prelude::*;
+    use crate::error;
+
+    // info::XmlItem (variants only; the payload is the handle)
+    pub enum XmlItem {
+        Attribute(usize), CData(usize), CharReference(usize), Comment(usize), DeclarationAttList(usize), Document(usize),
+        DocumentType(usize), Element(usize), Entity(usize), Namespace(usize), Notation(usize), PI(usize), Text(usize),
+        Unexpanded(usize), Unparsed(usize),
+    }
+    pub struct ItemRef { pub ident: usize, pub item: XmlItem }
+    impl ItemRef {
+        pub fn id(&self) -> (r: usize) ensures r == self.ident { self.ident }
+        pub fn item(&self) -> (r: &XmlItem) ensures *r == self.item { &self.item }
+    }
+    impl Clone for ItemRef {
+        #[verifier::external_body]
+        fn clone(&self) -> (r: Self) ensures r == *self { unimplemented!() }
+    }
+    pub open spec fn ids(v: Seq<ItemRef>) -> Seq<usize> { v.map_values(|x: ItemRef| x.ident) }
+
+    // XmlAttributeValue::try_from(item): only text, character references and entity references are attribute values
+    pub struct XmlAttributeValue { pub ident: usize }
+    impl Clone for XmlAttributeValue {
+        #[verifier::external_body]
+        fn clone(&self) -> (r: Self) ensures r == *self { unimplemented!() }
+    }
+    #[verifier::external_body]
+    pub fn attribute_value_try_from(value: ItemRef) -> (r: error::Result<XmlAttributeValue>)
+        ensures r is Ok ==> r->Ok_0.ident == value.ident,
+                r is Ok <==> (value.item is Text || value.item is CharReference || value.item is Unexpanded),
+    { unimplemented!() }
+    pub open spec fn value_ids(v: Seq<XmlAttributeValue>) -> Seq<usize> { v.map_values(|x: XmlAttributeValue| x.ident) }
+
+    // what survives `filter(ident != dropped)`: every element with another id
+    pub proof fn lemma_filter_keeps_items(s: Seq<ItemRef>, dropped: usize, keep: Option<usize>)
+        requires keep is Some, keep->Some_0 != dropped, ids(s).contains(keep->Some_0),
+        ensures ids(s.filter(|x: ItemRef| x.ident != dropped)).contains(keep->Some_0),
+    {
+        let pred = |x: ItemRef| x.ident != dropped;
+        s.filter_lemma(pred);
+        let i = choose|i: int| 0 <= i < ids(s).len() && ids(s)[i] == keep->Some_0;
+        assert(ids(s)[i] == s[i].ident);
+        assert(pred(s[i]));
+        let f = s.filter(pred);
+        assert(f.contains(s[i]));
+        let j = choose|j: int| 0 <= j < f.len() && f[j] == s[i];
+        assert(ids(f)[j] == keep->Some_0);
+    }
+    pub proof fn lemma_filter_keeps_values(s: Seq<XmlAttributeValue>, dropped: usize, keep: Option<usize>)
+        requires keep is Some, keep->Some_0 != dropped, value_ids(s).contains(keep->Some_0),
+        ensures value_ids(s.filter(|x: XmlAttributeValue| x.ident != dropped)).contains(keep->Some_0),
+    {
+        let pred = |x: XmlAttributeValue| x.ident != dropped;
+        s.filter_lemma(pred);
+        let i = choose|i: int| 0 <= i < value_ids(s).len() && value_ids(s)[i] == keep->Some_0;
+        assert(value_ids(s)[i] == s[i].ident);
+        assert(pred(s[i]));
+        let f = s.filter(pred);
+        assert(f.contains(s[i]));
+        let j = choose|j: int| 0 <= j < f.len() && f[j] == s[i];
+        assert(value_ids(f)[j] == keep->Some_0);
+    }
+
+    pub struct XmlElement {
+        pub ident: usize,
+        pub children: Vec<ItemRef>,
+        pub parent_of: Ghost<Map<usize, Option<usize>>>,
+    }
+    pub struct XmlAttribute {
+        pub ident: usize,
+        pub values: Vec<XmlAttributeValue>,
+        pub parent_of: Ghost<Map<usize, Option<usize>>>,
+    }
+
+    impl XmlElement {
+        pub fn id(&self) -> (r: usize) ensures r == self.ident { self.ident }
+        // HasParent::ancestor: walks parent links (assumed callee, read-only)
+        #[verifier::external_body]
+        pub fn ancestor(&self, id: usize) -> (r: bool) { unimplemented!() }
+        #[verifier::external_body]
+        pub fn child_index(&self, id: usize) -> (r: Option<usize>)
+            ensures r is Some <==> ids(self.children@).contains(id),
+                    r is Some ==> r->Some_0 < self.children@.len() && self.children@[r->Some_0 as int].ident == id,
+        { unimplemented!() }
+        // value.remove_from_parent(): the old parent forgets the item (if the old parent is this node, its own list shrinks)
+        #[verifier::external_body]
+        pub fn world_remove_from_parent(&mut self, value: &ItemRef)
+            ensures final(self).ident == old(self).ident,
+                    final(self).parent_of@ == old(self).parent_of@.insert(value.ident, None),
+                    final(self).children@ == old(self).children@.filter(|x: ItemRef| x.ident != value.ident),
+        { unimplemented!() }
+        #[verifier::external_body]
+        pub fn world_set_parent_id(&mut self, value: &ItemRef, parent: Option<usize>)
+            ensures final(self).ident == old(self).ident, final(self).children@ == old(self).children@,
+                    final(self).parent_of@ == old(self).parent_of@.insert(value.ident, parent),
+        { unimplemented!() }
+
+        //@@ element_insert_by_id
+    }
+
+    impl XmlAttribute {
+        pub fn id(&self) -> (r: usize) ensures r == self.ident { self.ident }
+        #[verifier::external_body]
+        pub fn ancestor(&self, id: usize) -> (r: bool) { unimplemented!() }
+        #[verifier::external_body]
+        pub fn child_index(&self, id: usize) -> (r: Option<usize>)
+            ensures r is Some <==> value_ids(self.values@).contains(id),
+                    r is Some ==> r->Some_0 < self.values@.len() && self.values@[r->Some_0 as int].ident == id,
+        { unimplemented!() }
+        #[verifier::external_body]
+        pub fn world_remove_from_parent(&mut self, value: &ItemRef)
+            ensures final(self).ident == old(self).ident,
+                    final(self).parent_of@ == old(self).parent_of@.insert(value.ident, None),
+                    final(self).values@ == old(self).values@.filter(|x: XmlAttributeValue| x.ident != value.ident),
+        { unimplemented!() }
+        #[verifier::external_body]
+        pub fn world_set_parent_id(&mut self, value: &ItemRef, parent: Option<usize>)
+            ensures final(self).ident == old(self).ident, final(self).values@ == old(self).values@,
+                    final(self).parent_of@ == old(self).parent_of@.insert(value.ident, parent),
+        { unimplemented!() }
+
+        //@@ attribute_insert_by_id
+    }
+}
+
 } // verus!
 fn main() {}
 '''
@@ -153,6 +285,22 @@ def build():
                              ensures=[('C13+C14:refused_call_changes_nothing', f'r is Err ==> {UNCHANGED}'),
                                       ('C13:unknown_reference_is_refused', '!old(self).children@.contains(id) ==> r is Err'),
                                       ('C13:accepted_child_is_in_the_list_and_numbered', 'r is Ok ==> final(self).children@.contains(value.ident)')])
+    R_PRIM = [Rule('R43', r'value\.remove_from_parent\(\);', 'self.world_remove_from_parent(&value);', 'the item leaves its old parent: shared world made explicit on the receiver'),
+              Rule('R43', r'value\.set_parent_id\(Some\(self\.id\(\)\)\);', 'let __me = self.id(); self.world_set_parent_id(&value, Some(__me));', 'same'),
+              Rule('R11', r'self\.(children|values)\.borrow_mut\(\)\.', r'self.\1.', 'RefCell borrow dropped (A4)'),
+              Rule('R44', r'match &\*value \{', 'match value.item() {', 'deref of Rc<XmlItem> -> accessor of the environment handle'),
+              Rule('R44', r'XmlAttributeValue::try_from\(value\.clone\(\)\)', 'attribute_value_try_from(value.clone())', 'TryFrom<Rc<XmlItem>> for XmlAttributeValue -> assumed callee')]
+    SRP = [PUB, R_MUT, Rule('R11', r'Rc<XmlItem>', 'ItemRef', 'Rc<XmlItem> -> environment handle (A4)')]
+    REQ = [('reference_child_exists_and_is_not_the_value', 'id is Some ==> id->Some_0 != value.ident && {}.contains(id->Some_0)')]
+    for (key, owner, lst, idsf, label, lem) in (('element_insert_by_id', 'impl HasChildren for XmlElement', 'children', 'ids', 'XmlElement::insert_by_id', 'lemma_filter_keeps_items'),
+                                                ('attribute_insert_by_id', 'impl HasChildren for XmlAttribute', 'values', 'value_ids', 'XmlAttribute::insert_by_id', 'lemma_filter_keeps_values')):
+        fns[key] = Fn(FI, owner, 'insert_by_id', props=P, sig_rules=SRP, rules=R_PRIM, label=label,
+                      requires=[('reference_child_exists_and_is_not_the_value', f'id is Some ==> id->Some_0 != value.ident && {idsf}(old(self).{lst}@).contains(id->Some_0)')],
+                      ensures=[('C13+C12:refused_call_changes_nothing', f'r is Err ==> final(self).{lst}@ == old(self).{lst}@ && final(self).parent_of@ == old(self).parent_of@'),
+                               ('C13+C12:accepted_child_is_listed_once_under_this_parent', f'r is Ok ==> r->Ok_0 == value && {idsf}(final(self).{lst}@).contains(value.ident) && final(self).parent_of@[value.ident] == Some(old(self).ident)')],
+                      inject=[(r'let index = self\.child_index\(id\)\.unwrap\(\);', f'proof {{ {lem}(old(self).{lst}@, value.ident, Some(id)); }}', 'before'),
+                              (rf'self\.{lst}\.insert\(index, ', f'proof {{ assert({idsf}(self.{lst}@)[index as int] == value.ident); }}'),
+                              (rf'self\.{lst}\.push\(', f'proof {{ assert({idsf}(self.{lst}@)[self.{lst}@.len() - 1] == value.ident); }}')])
     return ENV, fns
 
 
